@@ -472,6 +472,8 @@ class Norm:
             return self.truthy(n[1])
         if tag in ("inst", "fluent", "stage", "exc"):
             return TRUE
+        if rooted_at_caught(n) and n[0] != "caught":
+            return TRUE  # the message of a violated rule is a non-empty string
         if tag == "ite":
             return c_or([c_and([n[1], self.truthy(n[2])]), c_and([c_not(n[1]), self.truthy(n[3])])])
         return ("truthy", n)
@@ -687,8 +689,8 @@ def try_names(n, names=None):
     return names
 
 
-def diff_bags(actual, expected, names=None) -> tuple[list[str], list[str]]:
-    """Generators of `actual` without counterpart in `expected` and vice versa (as text)."""
+def diff_bags(actual, expected, names=None) -> tuple[list[str], list[str], list[str]]:
+    """Generators of `actual` without counterpart in `expected` and vice versa, and all generators of `expected` (as text)."""
 
     def as_gens(n):
         if n[0] == "bag":
@@ -719,7 +721,7 @@ def diff_bags(actual, expected, names=None) -> tuple[list[str], list[str]]:
         else:
             used.add(hit)
     missing = [canon_gen(E[j][1], {}, 0) for j in range(len(E)) if j not in used]
-    return extra, missing
+    return extra, missing, [canon_gen(r, {}, 0) for _g, r in E]
 
 
 def rename_try(t, names):
